@@ -65,6 +65,7 @@ type Exec struct {
 	inEntry   bool
 	assignRhs map[*ssa.Function]map[token.Pos]string
 	inHook   bool
+	recvOk   *Term
 	allocs   []*Object
 	trustedUsed map[string]bool
 }
@@ -1347,7 +1348,7 @@ func (x *Exec) havocLoopState(s *State, li *loopInfo, b *ssa.BasicBlock, writes 
 			if name == "cancelled" {
 				s.ghost[name] = Var("cancelled@"+tag, SBool)
 			} else {
-				s.ghost[name] = Var(name+"@"+tag, SInt)
+				s.ghost[name] = Var(name+"@"+tag, ghostSort(name))
 			}
 			s.writes[k] = writes[k]
 			continue
@@ -1585,6 +1586,9 @@ func (x *Exec) chanRecv(s *State, cv Val, elem types.Type, name string, okv *Ter
 			s.assume(Implies(okv, x.chanPred(s, ci, v)))
 		}
 	}
+	x.recvOk = okv
+	x.onChanClauses(s, cv, v, site, true)
+	x.recvOk = nil
 	if cc, ok := cv.(*ChanV); ok && cc.Obj != nil && strings.HasSuffix(cc.Obj.name, ".done$chan") {
 		s.ghost["cancelled"] = TTrue
 		s.writes["ghost:var:cancelled"] = writeRec{obj: x.fsMarker()}
@@ -1688,6 +1692,10 @@ func (x *Exec) ghostSentAppend(s *State, hist *Term, v Val) *Term {
 // onSendClauses applies the at-send assertions and on-send ghost effects
 // that the current function's contract declares for this channel.
 func (x *Exec) onSendClauses(s *State, cv Val, v Val, site ssa.Instruction) {
+	x.onChanClauses(s, cv, v, site, false)
+}
+
+func (x *Exec) onChanClauses(s *State, cv Val, v Val, site ssa.Instruction, recv bool) {
 	c, ok := cv.(*ChanV)
 	if !ok || c.Obj == nil || len(s.frames) == 0 {
 		return
@@ -1704,6 +1712,9 @@ func (x *Exec) onSendClauses(s *State, cv Val, v Val, site ssa.Instruction) {
 	}
 	var ups []upd
 	for _, os := range ct.OnSends {
+		if os.Recv != recv {
+			continue
+		}
 		tv, ok := env.eval(os.ChanExpr).(*ChanV)
 		if !ok || tv.Obj != c.Obj {
 			continue
@@ -1727,7 +1738,18 @@ func (x *Exec) onSendClauses(s *State, cv Val, v Val, site ssa.Instruction) {
 	}
 	env.syncFacts()
 	for _, u := range ups {
-		s.ghost[u.name] = u.v
+		nv := u.v
+		if recv && x.recvOk != nil && !x.recvOk.IsTrue() {
+			// nothing was received when the channel is closed
+			if nt, ok := nv.(*Term); ok {
+				cur, has := s.ghost[u.name].(*Term)
+				if !has {
+					cur = Var(u.name+"@entry", ghostSort(u.name))
+				}
+				nv = Ite(x.recvOk, nt, cur)
+			}
+		}
+		s.ghost[u.name] = nv
 		s.writes["ghost:var:"+u.name] = writeRec{obj: x.fsMarker()}
 	}
 }
